@@ -744,6 +744,20 @@ impl VmGreenThread {
     }
 }
 
+/// `a ^ b` on 64-bit integers: `None` when the exact power does not fit.
+/// The exponent is not truncated to 32 bits: for exponents beyond `u32::MAX`
+/// only the bases 0, 1 and -1 have a representable power.
+pub(crate) fn checked_pow_int(a: AbraInt, b: AbraInt) -> Option<AbraInt> {
+    match u32::try_from(b) {
+        Ok(e) => a.checked_pow(e),
+        Err(_) => match a {
+            0 | 1 => Some(a),
+            -1 => Some(if b % 2 == 0 { 1 } else { -1 }),
+            _ => None,
+        },
+    }
+}
+
 // Instr is 8 bytes
 const _: [(); 8] = [(); size_of::<Instr>()];
 #[derive(Debug, Copy, Clone)]
@@ -1762,7 +1776,7 @@ impl VmGreenThread {
             Instr::PowerInt(dest, reg1, reg2) => {
                 let b = self.load_offset_or_top(reg2).get_int(self);
                 let a = self.load_offset_or_top(reg1).get_int(self);
-                let Some(c) = a.checked_pow(b as u32) else {
+                let Some(c) = checked_pow_int(a, b) else {
                     self.error = Some(
                         self.make_error(VmErrorKind::IntegerOverflowUnderflow)
                             .into(),
@@ -1773,7 +1787,7 @@ impl VmGreenThread {
             }
             Instr::PowerIntImm(dest, reg1, imm) => {
                 let a = self.load_offset_or_top(reg1).get_int(self);
-                let Some(c) = a.checked_pow(self.shared.int_constants[imm as usize] as u32) else {
+                let Some(c) = checked_pow_int(a, self.shared.int_constants[imm as usize]) else {
                     self.error = Some(
                         self.make_error(VmErrorKind::IntegerOverflowUnderflow)
                             .into(),
